@@ -75,7 +75,7 @@ func genFrameStream(r *RNG) ([]byte, string) {
 		case 0:
 			out = append(out, fw.Data(id|1, r.Intn(2) == 0, make([]byte, Pick(r, 0, 1, 100, 16384)), Pick(r, -1, -1, 0, 1, 255))...)
 		case 1:
-			blk, _ := hex.DecodeString("828784410161")
+			blk := genHeaderBlock(r)
 			out = append(out, fw.Headers(id|1, blk, r.Intn(2) == 0, r.Intn(2) == 0, Pick(r, -1, 0, 7, 255), r.Intn(2) == 0, uint32(r.Intn(100)), uint8(r.Intn(256)))...)
 		case 2:
 			out = append(out, fw.Priority(id|1, uint32(r.Intn(100)), r.Intn(2) == 0, uint8(r.Intn(256)))...)
@@ -93,7 +93,11 @@ func genFrameStream(r *RNG) ([]byte, string) {
 		case 8:
 			out = append(out, fw.WindowUpdate(id, uint32(1+r.Intn(1<<30)))...)
 		case 9:
-			out = append(out, fw.Continuation(id|1, make([]byte, Pick(r, 0, 5, 1000)), r.Intn(2) == 0)...)
+			cb := make([]byte, Pick(r, 0, 5, 1000))
+			if r.Intn(2) == 0 {
+				cb = genHeaderBlock(r)
+			}
+			out = append(out, fw.Continuation(id|1, cb, r.Intn(2) == 0)...)
 		case 10: // unknown type
 			out = append(out, fw.Raw(uint8(Pick(r, 10, 11, 64, 127, 128, 200, 255)), uint8(r.Intn(256)), id, make([]byte, Pick(r, 0, 1, 100, 5000)))...)
 		}
@@ -129,6 +133,74 @@ func genFrameStream(r *RNG) ([]byte, string) {
 		out = append(out, g...)
 	}
 	return out, kind
+}
+
+// genHeaderBlock: header block fragments from well-formed to hostile: boundary integers (RFC 7541 5.1: eleven octets
+// still fit 64 bits), indexes out of range, size updates, strings longer than what follows, Huffman garbage.
+func genHeaderBlock(r *RNG) []byte {
+	huge := "7f80808080808080808001" // 7-bit prefix, 2^63 + 127
+	pool := []string{
+		"828784410161",                        // :method GET, :scheme https, :path /, :authority "a"
+		"82878441016100016101" + "62",         // + literal a: b
+		"00" + huge,                           // literal, new name of 2^63 octets
+		"000161" + huge,                       // literal a: value of 2^63 octets
+		"40" + "ff80808080808080808001",       // literal with indexing, Huffman name of 2^63 octets
+		"0f2f" + huge,                         // indexed name, value of 2^63 octets
+		"ffffffffffffffffffff7f",              // index of 2^70
+		"ff808080808080808080" + "8080808001", // integer that does not fit 64 bits
+		"3fe11f" + "8287",                     // size update to 4096, then fields
+		"3fffffff7f" + "82",                   // size update far above any limit
+		"bf",                                  // index 63: nothing there
+		"0085" + "ffffffffff" + "0161",        // Huffman name that is all padding / EOS
+		"000a6162",                            // name longer than the block
+		"",                                    // empty block
+	}
+	b, _ := hex.DecodeString(pool[r.Intn(len(pool))])
+	if r.Intn(4) == 0 {
+		g := make([]byte, 1+r.Intn(40))
+		for i := range g {
+			g[i] = byte(r.Uint64())
+		}
+		b = append(b, g...)
+	}
+	return b
+}
+
+// c16DecodeBlock runs a header block fragment through the library's HPACK decoder, one field at a time: every step
+// consumes input or fails, nothing panics, and the decoder goes back to its pool exactly once.
+func c16DecodeBlock(b []byte) (detail string) {
+	defer func() {
+		if p := recover(); p != nil {
+			detail = fmt.Sprintf("HPACK decoding panicked: %v", p)
+		}
+	}()
+	hp := http2.AcquireHPACK()
+	defer http2.ReleaseHPACK(hp)
+	hf := http2.AcquireHeaderField()
+	defer http2.ReleaseHeaderField(hf)
+	in := len(b)
+	fields, outBytes := 0, 0
+	for len(b) > 0 {
+		nb, err := hp.Next(hf, b)
+		if err != nil {
+			return ""
+		}
+		if len(nb) >= len(b) {
+			return fmt.Sprintf("HPACK.Next returned without an error and without consuming input (%d bytes left before and after)", len(b))
+		}
+		b = nb
+		fields++
+		outBytes += len(hf.KeyBytes()) + len(hf.ValueBytes())
+		if fields > in {
+			return fmt.Sprintf("%d fields decoded from %d bytes of input", fields, in)
+		}
+	}
+	// output bounded by input: a literal costs its own length, an indexed field at most one table entry (the table
+	// starts empty here, so only static entries and what the block itself inserted: both bounded by 64 bytes + input)
+	if outBytes > (in+64)*(in+1) {
+		return fmt.Sprintf("%d bytes of header fields decoded from %d bytes of input", outBytes, in)
+	}
+	return ""
 }
 
 func GenC16(r *RNG) *C16Plan {
@@ -266,6 +338,14 @@ func c16Once(p *C16Plan, data []byte, cut int, res *RunResult) *Violation {
 		}
 		if d := compareBody(f, want); d != "" {
 			return mk("body-mismatch", "body-mismatch/"+ftName(want.Type), fmt.Sprintf("frame %d (%s): %s", i, want, d))
+		}
+		if (want.Type == FHeaders || want.Type == FContinuation) && want.Err == "" {
+			if fh, ok := f.Body().(http2.FrameWithHeaders); ok {
+				res.Probes["header-block-decoded"]++
+				if d := c16DecodeBlock(fh.Headers()); d != "" {
+					return mk("hpack", "hpack/"+normMsg([]byte(d)), fmt.Sprintf("frame %d (%s), header block fragment %x: %s", i, want, fh.Headers(), d))
+				}
+			}
 		}
 		if want.Err != "" && structurallyImpossible(want) {
 			return mk("impossible-structure-accepted", "impossible-structure-accepted/"+ftName(want.Type), fmt.Sprintf("frame %d was accepted although its fixed-size or padding structure is impossible: %s", i, want.Err))
